@@ -37,16 +37,20 @@ CLAIMED = {
             "after the style-tag repair), 'wrap' omits an annotation only when fully covered; text content unchanged (C09's invariant). The step from these to "
             "'the output parses' is the assumed lemma L-XML; the parse itself is bounded (stand-in, lxml as judge).", "6/C11"),
     "C03": ("proof", "filter_citations' postconditions -- nothing invented (every result is an input object), pairwise distinct spans, results ordered by span, "
-            "every non-reference citation kept (unless a later element has the identical span) -- are discharged for all citation lists via a loop invariant "
-            "with ghost index maps over the de-duplicated, sorted list; overlapping_citations equals its interval-intersection specification. "
-            "Disjointness of spans and idempotence are bounded (stand-in) only.", "6/C03"),
+            "every non-reference citation kept (unless a later NON-reference element has the identical span) -- are discharged for all citation lists via a loop invariant "
+            "with ghost index maps over the pre-sorted, de-duplicated, sorted list; ordered_by_span and distinct_spans are also postconditions of get_citations "
+            "itself (carried through remove_ambiguous); overlapping_citations equals its interval-intersection specification. "
+            "Disjointness of spans and idempotence are bounded (stand-in) only.", "6/C03, 13.6"),
     "C12": ("proof", "Tokenizer.tokenize's loop invariant (the emitted tokens are a prefix partition of the text at cumulative offsets; the index list names exactly "
             "the special tokens, in increasing order) and postcondition PART are discharged for all texts and all candidate-token lists satisfying CAND, "
-            "including the nominative-reporter pop branch; no bound on text or token count.", "6/C12"),
+            "including the nominative-reporter pop branch; Tokenizer.append_text is verified against its contract (SLICES invariant over the pieces of "
+            "text.split(' ')); no bound on text or token count.", "6/C12, 13.9"),
     "C02": ("proof", "The class invariant SPANS (0 <= full start <= span start <= span end <= full end <= len(text), span starts at and covers the "
             "matched token, pin-cite offsets inside the text, pin-cite text inside the pin-cite span) is a discharged postcondition of every function that "
             "constructs or extends a citation's offsets (match_on_tokens window contract WIN, extract_pin_cite, add_post_citation, add_defendant, "
-            "add_pre_citation, add_law/journal_metadata, the add_metadata chain, _extract_full/shortform/supra/id_citation), for all texts under the token-partition precondition PART.", "6/C02"),
+            "add_pre_citation, add_law/journal_metadata, the add_metadata chain, _extract_full/shortform/supra/id_citation, both reference extractors), and is carried by the "
+            "loop invariant of get_citations itself to EVERY returned citation (postcondition `spans`, plain and markup mode), under the assumed contracts of "
+            "Document(...) and Document.tokenize (PART as proved for Tokenizer.tokenize).", "6/C02, 13.6"),
     "C06": ("proof", "All obligations of the ten resolve.py functions (quantified loop invariant with ghost res/pos/src/fidx on resolve_citations, "
             "uniqueness contracts of the five resolvers) are discharged for all citation lists of any length; no bound. 'Equal' is tied to the statement's "
             "(normalised volume, reporter, page; placeholder pages identical only to themselves) by the hash-term model of C16 and the contract of corrected_reporter().", "6/C06"),
@@ -55,7 +59,8 @@ CLAIMED = {
     "C08": ("proof", "Online-ness reduced to one-run obligations on the resolver loop: two-state step clauses (append-only, at most the current "
             "citation appended, resolved_full_cites is a prefix) and the causal postcondition, discharged for all lists.", "6/C08"),
     "C18": ("proof", "get_year range/value clauses, Edition.includes_year, guess_edition (member / single / several-unique) and the "
-            "filter specification of disambiguate_reporters, discharged for all inputs.", "6/C18"),
+            "filter specification of disambiguate_reporters, discharged for all inputs; year soundness of every returned full case citation is a "
+            "postcondition of get_citations (clause `years`).", "6/C18, 13.6"),
 }
 NA = {
     "C01": "oracle is a generator of legal prose over ~6,800 database-derived regexes; no function contract can state 'this text contains exactly these written citations' without restating the implementation (DESIGN 6/C01)",
@@ -95,7 +100,8 @@ m = {
     "checks": checks,
     "not_applicable": [{"property_id": i, "reason": NA.get(i, "check not completed yet (build in progress; see DESIGN.md section 12)")}
                        for i in ids if i not in CLAIMED],
-    "notes": "fix: commits in /repo are listed in /verif/known_findings.json",
+    "notes": "fix: commits in /repo are listed in /verif/known_findings.json; baseline/<ID>.json (committed) lists the obligations discharged on the unchanged tree "
+             "(DESIGN 13.10); seeded/ holds 48 confirmed property-breaking changes and checks/seed_all.py replays them on scratch copies (seeded/RESULTS.json)",
 }
 json.dump(m, open(os.path.join(V, "MANIFEST.json"), "w"), indent=1)
 print("claimed:", sorted(CLAIMED))
